@@ -717,7 +717,13 @@ func (w *world) checkHandles(res *mbt.Result, bi, si int) *mbt.Violation {
 		}()
 		res.Count("restores", 1)
 		if pan != nil {
-			return &mbt.Violation{Property: "C08", Behaviour: bi, Step: si,
+			// a completed checkpoint that is still retained cannot be opened: its files or its entry in the checkpoints
+			// document are gone. In a C09 run (retention, garbage collection, re-opening) that is C09's subject.
+			prop := "C08"
+			if w.in.Property == "C09" {
+				prop = "C09"
+			}
+			return &mbt.Violation{Property: prop, Behaviour: bi, Step: si,
 				What: fmt.Sprintf("opening checkpoint %d from its completed handle fails: %v", id, pan), Expected: w.snap[id]}
 		}
 		g := w.getAll(db, keys)
